@@ -5,3 +5,4 @@ tier=${1:-quick}
 cd /verif
 ls seeded | xargs -P 6 -I{} sh -c 'p=$(echo {} | cut -d- -f1); [ -f /verif/seeded/{}/check ] && p=$(cat /verif/seeded/{}/check); tools/seedrun.sh /verif/seeded/{}/patch.diff '"$tier"' $p 2>&1 | grep -v conda | sed "s#^#{} #"'
 rm -rf /root/.cache/go-build-verif-scratch
+tools/trim_cache.sh 120
